@@ -131,6 +131,46 @@ PROPS = {
                         "encode::Error::write stubbed as unreachable for the infallible Vec sink (Kani 0.68 ICE work-around)"],
         "groups": [io({"quick": ["c14::c14_reader", "c14::c14_undecodable", "c14::c14_writer"], "thorough": ["c14::c14_"]}, timeout={"quick": 1200, "thorough": 3600})],
     },
+    "C15": {
+        "title": "AsyncReader is cancellation-safe",
+        "bounds": "ONE inductive step: from every reader state satisfying the representation invariant Inv (ReadLen(b,o), o<=4, b[..o] = frame prefix bytes | ReadVal(o), buffer.len()==declared, "
+                  "buffer[..o] = payload bytes; source positioned at exactly the bytes accounted for), built through the cfg(minicbor_verif) hook, one read() future is created, polled ONCE and dropped; "
+                  "every inner source read answers Pending / transient error / EOF / 1 byte / up to 4 bytes (<= 2 completed reads per poll); frame = 2-byte payload, EOF point symbolic. "
+                  "Post: value == frame value & source behind the frame & fresh state | Pending/transient error => Inv again | EOF inside => UnexpectedEof | clean end only at a boundary. Base case: new() satisfies Inv",
+        "outside": "the lifting from one step to poll/drop schedules of any length is an induction ARGUMENT (post-states are Inv states, which are all covered as pre-states), not a query; payloads > 2 bytes; > 2 completed reads in one poll",
+        "assumptions": ["Vec::resize replaced by a fixed-capacity growth model", "hook: cfg(minicbor_verif) __verif_from_parts/__verif_state (add-only)"],
+        "groups": [io(["c15::c15_"], timeout={"quick": 2400, "thorough": 3600}, mem_gb={"quick": 24, "thorough": 24}, jobs={"quick": 2, "thorough": 2})],
+    },
+    "C16": {
+        "title": "AsyncWriter delivers whole frames in order under short writes and cancel+sync",
+        "bounds": "ONE inductive step: from every writer state (any 6-byte buffer, None | WriteFrom(o), o<=len) one sync() future polled once and dropped, every inner write answers Pending / transient error / "
+                  "Ok(0) / Ok(1) / Ok(all) (<= 2 completed writes per poll): sink got exactly buffer[o..o+n] in order, state accounts for it, Ok(0) => WriteZero, idle sync writes nothing; "
+                  "write() of all (u8,bool) from idle, one poll: sink holds a prefix of len_be32++encoding, Pending => buffer == frame & state == WriteFrom(n), completion returns the payload length; "
+                  "max_len 0..=5; a failing Encode impl puts nothing into the sink",
+        "outside": "the lifting to schedules of any length is an induction argument under the statement's own precondition (a dropped write is followed by sync to completion); frames > 8 bytes",
+        "assumptions": ["Vec::resize / extend_from_slice growth models", "encode::Error::write stubbed unreachable for the infallible Vec sink", "hook: cfg(minicbor_verif)"],
+        "groups": [io(["c16::c16_"], timeout={"quick": 1200, "thorough": 3600})],
+    },
+    "C17": {
+        "title": "serde bridge: documented representation and method pairing",
+        "bounds": "every primitive Serializer method over its full argument domain vs the preferred reference encoding; str/bytes payload <= 4; every composite Serializer shape "
+                  "(some/newtype/unit/unit-variant/newtype-, tuple-, struct-variant, seq & map with and without length, tuple, tuple struct, struct) vs the documented representation, well-formed per R3; "
+                  "every integer Deserializer method on all 9-byte heads with a visitor accepting exactly one visit method; bool/unit/option/str/bytes; seq/tuple/map through SeqAccess/MapAccess on "
+                  "definite and indefinite containers of <= 2 elements (type-directed, element bytes symbolic); enum with unit/newtype/tuple/struct VariantAccess; deserialize_any per concrete initial byte; ignored_any",
+        "outside": "end-to-end from_slice::<T> for serde-DERIVED T (the generated visitors exhaust CBMC: > 10 GB); flatten / internally tagged / untagged representations (serde-derive glue, Content buffering); "
+                   "the round trip of derived types follows only compositionally from (representation) + (method contracts), with serde-derive's own glue trusted",
+        "assumptions": ["hand-written minimal visitors stand in for serde-derive's", "Decoder::skip replaced by the R3 model; from_utf8 over-approximated where validation is not the subject"],
+        "groups": [serde({"quick": ["c17::c17_"], "thorough": ["c17::c17_"]})],
+    },
+    "C18": {
+        "title": "serde bridge and native traits interoperate",
+        "bounds": "identical bytes from Encode and Serialize for ALL values of u8..u64, i8..i64, bool, char, f32, f64, (), &str <= 4 bytes, Option<u16>, (u8,bool), ((i32,bool,Option<u8>),char), [u16;2]; "
+                  "native decode vs serde Deserialize (serde's own impls) on the same 9 symbolic head bytes for u8/u32/i16/i64/bool: same Ok/Err, value and position; composite shapes on type-directed "
+                  "inputs incl. wider heads: never a disagreement on the value",
+        "outside": "ordered maps, sequences > 2 elements, Vec (alloc) in the quick tier, indefinite containers on the native side of tuples (both sides reject)",
+        "assumptions": ["serde's own Deserialize impls for primitives, tuples, arrays and Option are part of what is executed (trusted as serde's)"],
+        "groups": [serde(["c18::c18_"])],
+    },
     "C11": {
         "title": "token streams are faithful",
         "bounds": "one tokenizer step for each initial byte (quick: the 64 structurally distinct ones, thorough: all 256) with 8 symbolic argument bytes + <= 4 payload bytes: "
